@@ -921,6 +921,10 @@ def _helper_shape(fn):
     return body, ret
 
 
+def _helper_shape_ignoring_decorators(fn):
+    return _helper_shape(fn)
+
+
 def inline_fresh_helpers(rel, module):
     """Step S13.  Returns {helper: number of call sites inlined}."""
     import copy as _c
@@ -945,9 +949,38 @@ def inline_fresh_helpers(rel, module):
         if any(not (isinstance(d, ast.Name) and d.id == 'staticmethod') for d in fn.decorator_list):
             continue
         helpers[(cls, name)] = (fn, sh, static)
+    # S13p: read-only properties that the reference class does not have, with a single-expression body: `x.name` -> body[self := x]
+    props = {}
+    for lname, fn in module.funcs.items():
+        if (rel + '::' + lname) in ref or '<locals>' in lname or not isinstance(fn, ast.FunctionDef):
+            continue
+        if len(fn.decorator_list) == 1 and isinstance(fn.decorator_list[0], ast.Name) and fn.decorator_list[0].id == 'property' \
+                and len(fn.args.args) == 1:
+            sh = _helper_shape_ignoring_decorators(fn)
+            if sh is not None and not sh[0] and sh[1] is not None:
+                props[lname.rpartition('.')[2]] = (fn, sh[1], fn.args.args[0].arg, lname.rpartition('.')[0])
+    pdone = {}
+    if props:
+        import copy as _cp
+
+        class PT(ast.NodeTransformer):
+            def visit_Attribute(self, n):
+                self.generic_visit(n)
+                if isinstance(n.ctx, ast.Load) and n.attr in props and isinstance(n.value, ast.Name):
+                    fn_, ret, selfname, cls_ = props[n.attr]
+                    pdone[n.attr] = pdone.get(n.attr, 0) + 1
+                    return _relocate(_Subst({selfname: n.value.id}).visit(_cp.deepcopy(ret)), n)
+                return n
+        for lname, fn in list(module.funcs.items()):
+            if lname.rpartition('.')[2] in props:
+                continue
+            fn.body = [PT().visit(st) for st in fn.body]
+        for nm, (fn_, ret, selfname, cls_) in props.items():
+            if nm in pdone and cls_ in module.classes and fn_ in module.classes[cls_].body:
+                module.classes[cls_].body.remove(fn_)
     if not helpers:
-        return {}
-    done = {}
+        return pdone
+    done = dict(pdone)
     counter = [0]
 
     def match(call, caller_cls):
